@@ -42,6 +42,14 @@ pub struct SqlScenario {
     /// barely be seated (large batch size, few partitions, small merge fan-in): multi-level merges,
     /// re-spilling of skewed runs, merges that fail half-way
     pub tight_sort: bool,
+    /// the tables are Parquet / NDJSON files in the simulated object store behind listing tables
+    /// (file groups, byte-range repartitioning, shared work queue of sibling scan partitions, Parquet
+    /// pruning and filter pushdown incl. dynamic filters) instead of simulated sources
+    pub file_tables: bool,
+    /// C06/C18: grouped aggregation over an input that is sorted on (part of) the group key, few
+    /// partitions (single-stage plans), small batches and a limit of a few KB: ordered and partially
+    /// ordered streams with early emission, spilling in the middle of a key range, replay of spilled runs
+    pub ordered_agg: bool,
 }
 
 fn gen_table(rng: &mut Rng, tier: Tier, small: bool) -> Value {
@@ -92,6 +100,11 @@ impl Scenario for SqlScenario {
                 guard += 1;
             }
         }
+        if self.ordered_agg {
+            let t = *rng.pick(&["groupby", "groupby", "groupby_filter", "groupby_ord", "having", "groupby_str", "distinct"]);
+            let keys = if t == "groupby_str" { *rng.pick(&["k", "ks"]) } else { *rng.pick(&["ks", "ks", "k"]) };
+            q = json!({"t": t, "keys": keys, "c": rng.below(300) as i64 - 100, "n": rng.range(0, 2)});
+        }
         if self.nlj_focus {
             q = json!({"t": "nlj", "jt": *rng.pick(&["inner", "left", "right", "full", "semi", "anti", "rsemi", "ranti"])});
         }
@@ -112,7 +125,14 @@ impl Scenario for SqlScenario {
                 1 => rng.below(40_000),
                 _ => *rng.pick(&[0u64, 500, 2_000, 8_000, 30_000, 200_000]),
             };
-            env["pool"] = json!({"kind": *rng.pick(&["greedy", "fair"]), "limit": limit, "neighbour": []});
+            // a third: ample memory and a neighbour that squeezes it for a moment (single refusals at
+            // arbitrary points instead of a constant shortage)
+            env["pool"] = if rng.chance(1, 3) {
+                let squeezes: Vec<Value> = (0..rng.range(1, 3)).map(|_| json!([rng.below(90), rng.below(600), rng.range(1, 6)])).collect();
+                json!({"kind": *rng.pick(&["greedy", "fair"]), "limit": rng.range(6_000, 60_000), "neighbour": squeezes})
+            } else {
+                json!({"kind": *rng.pick(&["greedy", "fair"]), "limit": limit, "neighbour": []})
+            };
         }
         let mut drop_after = Value::Null;
         match self.mode {
@@ -147,6 +167,22 @@ impl Scenario for SqlScenario {
             _ => {}
         }
         let mut knobs = sqlsim::generate_cfg(rng);
+        if self.ordered_agg {
+            let tg = TableGen { parts: (1, 2), batches: (3, 8), rows: (2, 8), key_domain: *rng.pick(&[3i64, 5, 8]), sorted_by_k: true, null_pct: 6, ..Default::default() };
+            a = json!({"parts": tg.generate(rng), "sorted": true, "view": rng.chance(1, 3)});
+            knobs["datafusion.execution.target_partitions"] = json!(*rng.pick(&[1u64, 1, 1, 2]));
+            env["batch_size"] = json!(*rng.pick(&[1u64, 2, 4, 8]));
+            if rng.chance(3, 4) {
+                env["pool"] = if rng.chance(1, 2) {
+                    json!({"kind": *rng.pick(&["greedy", "fair"]), "limit": rng.range(800, 6_000), "neighbour": []})
+                } else {
+                    // ample memory, but a neighbour that takes (almost) everything for a moment: one or two
+                    // refusals at arbitrary points of the run, i.e. a spill in the middle of a key range
+                    let squeezes: Vec<Value> = (0..rng.range(1, 2)).map(|_| json!([rng.below(70), rng.below(400), rng.range(1, 4)])).collect();
+                    json!({"kind": *rng.pick(&["greedy", "fair"]), "limit": rng.range(6_000, 40_000), "neighbour": squeezes})
+                };
+            }
+        }
         if self.tight_sort {
             let tg = TableGen { parts: (1, 3), batches: (2, 6), rows: (3, 16), key_domain: 6, ..Default::default() };
             a = json!({"parts": tg.generate(rng), "sorted": false, "view": rng.chance(1, 3)});
@@ -154,11 +190,26 @@ impl Scenario for SqlScenario {
             env["batch_size"] = json!(*rng.pick(&[16u64, 64, 8192]));
             env["merge_fan_in"] = json!(*rng.pick(&[0u64, 2, 2, 3]));
             env["sort_spill_reservation"] = json!(*rng.pick(&[0u64, 0, 64, 1024]));
-            env["pool"] = json!({"kind": *rng.pick(&["greedy", "fair"]), "limit": rng.range(600, 9_000), "neighbour": []});
+            env["pool"] = if rng.chance(1, 3) {
+                let squeezes: Vec<Value> = (0..rng.range(1, 3)).map(|_| json!([rng.below(90), rng.below(600), rng.range(1, 6)])).collect();
+                json!({"kind": *rng.pick(&["greedy", "fair"]), "limit": rng.range(6_000, 60_000), "neighbour": squeezes})
+            } else {
+                json!({"kind": *rng.pick(&["greedy", "fair"]), "limit": rng.range(600, 9_000), "neighbour": []})
+            };
         }
         if self.nlj_focus {
             knobs["datafusion.execution.target_partitions"] = json!(1);
             env["pool"] = json!({"kind": *rng.pick(&["greedy", "fair"]), "limit": *rng.pick(&[0u64, 50, 100, 200, 400, 800, 3000]), "neighbour": []});
+        }
+        if self.file_tables {
+            let fmt = *rng.pick(&["parquet", "parquet", "parquet", "json"]);
+            for t in [&mut a, &mut b] {
+                t["storage"] = json!(fmt);
+                t["row_group"] = json!(*rng.pick(&[1u64, 2, 3, 5, 1000]));
+                t["sorted"] = json!(false);
+                t["view"] = json!(false);
+            }
+            sqlsim::generate_file_cfg(rng, &mut knobs);
         }
         if self.dynamic_filters {
             // memory pressure is not C31's subject (and would only re-find the NLJ fallback findings)
@@ -183,6 +234,11 @@ impl Scenario for SqlScenario {
             "knobs": knobs,
             "env": env,
             "consume": *rng.pick(&["stream", "partitions"]),
+            "store": if self.file_tables {
+                json!({"chunk": *rng.pick(&[0u64, 0, 7, 64, 1000]), "pending_every": *rng.pick(&[0u64, 0, 1, 3]), "latency_ms": *rng.pick(&[0u64, 0, 2, 9]), "fail_get": Value::Null})
+            } else {
+                Value::Null
+            },
             "drop_after": drop_after,
             "concurrent": if self.mode == Mode::Exact && !self.need_reference { *rng.pick(&[1u64, 1, 2, 3]) } else { 1 },
         })
@@ -234,6 +290,14 @@ async fn run(case: Value, mode: Mode) -> Outcome {
     };
 
     let Some(sess) = sqlsim::build_session(&env, &case["knobs"], &tables) else { return Outcome::Invalid };
+    let file_store = match sqlsim::register_file_tables(&sess, &tables, &case["store"]).await {
+        Ok(s) => s,
+        Err(e) => return violation("harness", format!("cannot set up file-backed tables: {e}")),
+    };
+    if let Some(st) = &file_store {
+        let _ = st;
+        sim::probe("probe.file_backed_tables");
+    }
     let bounded_pool = env.pool_kind != "unbounded";
 
     // run the query (possibly several copies concurrently in one session)
@@ -312,6 +376,11 @@ async fn run(case: Value, mode: Mode) -> Outcome {
                         // the sort-merge join comparator): a documented gap, not a wrong result
                         sim::probe("probe.type_variant_not_implemented");
                     } else {
+                        // known finding (third symptom of the NLJ fallback's re-execution of its left child):
+                        // a file scan whose partitions share one work queue yields nothing the second time
+                        if bounded_pool && e.to_string().contains("Left side produced no data to spill") {
+                            sim::set_tag("nlj-fallback-left-reexecution");
+                        }
                         return violation("unexpected-error", format!("`{sql}` failed: {text}"));
                     }
                 }
@@ -323,7 +392,9 @@ async fn run(case: Value, mode: Mode) -> Outcome {
                             let pool = universe.as_ref().unwrap_or(&expected);
                             for r in rows {
                                 if !pool.contains(r) {
-                                    if let Some(t) = nlj_fallback {
+                                    // (a row outside the result can only stem from the left-emission finding;
+                                    // the right-emission finding loses rows, it never invents one)
+                                    if let Some(t) = nlj_fallback.filter(|t| *t == "nlj-fallback-left-emission") {
                                         sim::set_tag(t);
                                     }
                                     return violation("wrong-row", format!("`{sql}` produced {r:?}, which is not in the expected result"));
@@ -331,8 +402,14 @@ async fn run(case: Value, mode: Mode) -> Outcome {
                             }
                         }
                     } else if let Some(diff) = sqlsim::compare_with(rows, &expected, &mode_cmp, universe.as_deref()) {
-                        if let Some(t) = nlj_fallback {
-                            sim::set_tag(t);
+                        // The known findings have precise symptoms: the left-emission defect only *adds* rows
+                        // (left rows once per right partition), the right-emission defect only *loses* rows
+                        // (the final right-side emission). Anything else in the same code is reported.
+                        let (has_missing, has_extra) = sqlsim::missing_extra(rows, &expected);
+                        match nlj_fallback {
+                            Some(t @ "nlj-fallback-left-emission") if !has_missing => sim::set_tag(t),
+                            Some(t @ "nlj-fallback-right-emission") if !has_extra => sim::set_tag(t),
+                            _ => {}
                         }
                         let class = if mode == Mode::Fault && fault_fired { "truncated-success" } else { "wrong-result" };
                         return violation(class, format!("`{sql}`: {diff}"));
